@@ -1,8 +1,93 @@
 import PvlModel.Model.Encoder
-import PvlModel.Model.Spec
 /-!
-# C13
-(theorems are added below as they are proved; see DESIGN §5)
+# C13 — dumping is repeatable and does not damage its argument
+
+`Enc.encode c items` returns the text (or the refusal) together with `after`, the caller's module
+after the call.  Only `PDSLabelEncoder.encode` stores into its argument (`_group_to_object`).
 -/
-namespace Pvl
-end Pvl
+namespace Pvl.Enc
+
+/-- erase the GROUP/OBJECT distinction of the top-level containers -/
+def eraseKind : Items → Items
+  | [] => []
+  | (k, .cont _ inner) :: r => (k, .cont .object inner) :: eraseKind r
+  | p :: r => p :: eraseKind r
+
+theorem convertFirst_erase (p : Str × Val → Bool) (items items' : Items)
+    (h : convertFirst p items = some items') : eraseKind items' = eraseKind items := by
+  induction items generalizing items' with
+  | nil => simp [convertFirst] at h
+  | cons x r ih =>
+    obtain ⟨k, v⟩ := x
+    unfold convertFirst at h
+    by_cases hp : p (k, v) = true
+    · simp only [hp, if_true] at h
+      cases v <;> simp at h
+      subst h
+      simp [eraseKind]
+    · simp only [hp, Bool.false_eq_true, if_false] at h
+      cases hr : convertFirst p r with
+      | none => simp [hr] at h
+      | some r' =>
+        simp only [hr, Option.map_some, Option.some.injEq] at h
+        subst h
+        cases v <;> simp [eraseKind, ih r' hr]
+
+theorem convertFirst_length (p : Str × Val → Bool) (items items' : Items)
+    (h : convertFirst p items = some items') : items'.length = items.length := by
+  induction items generalizing items' with
+  | nil => simp [convertFirst] at h
+  | cons x r ih =>
+    obtain ⟨k, v⟩ := x
+    unfold convertFirst at h
+    by_cases hp : p (k, v) = true
+    · simp only [hp, if_true] at h
+      cases v <;> simp at h
+      subst h; simp
+    · simp only [hp, Bool.false_eq_true, if_false] at h
+      cases hr : convertFirst p r with
+      | none => simp [hr] at h
+      | some r' =>
+        simp only [hr, Option.map_some, Option.some.injEq] at h
+        subst h; simp [ih r' hr]
+
+/-- the conversion step changes nothing but the class of top-level containers: same number of
+    items, same names, same values, same order -/
+theorem pdsConvert_intact (c : EncCfg) (items items' : Items) (h : pdsConvert c items = .ok items') :
+    eraseKind items' = eraseKind items ∧ items'.length = items.length := by
+  unfold pdsConvert at h
+  repeat' split at h
+  all_goals first
+    | (cases h; done)
+    | (simp only [Except.ok.injEq] at h; subst h
+       first
+         | exact ⟨rfl, rfl⟩
+         | exact ⟨convertFirst_erase _ _ _ (by assumption), convertFirst_length _ _ _ (by assumption)⟩)
+
+/-- **C13, argument intact**: after `encode`, for every encoder, configuration and module, the
+    caller's module has the same items in the same order; for the PVL, ODL and ISIS encoders it is
+    identical, for the PDS3 encoder it differs at most in the class (GROUP → OBJECT) of top-level
+    containers. -/
+theorem C13_intact (c : EncCfg) (items : Items) :
+    eraseKind (encode c items).after = eraseKind items ∧
+    (c.kind ≠ .pds → (encode c items).after = items) := by
+  simp only [encode, encodeAfter]
+  by_cases hk : c.kind = .pds
+  · simp only [hk, beq_self_eq_true, if_true]
+    refine ⟨?_, fun h => absurd rfl h⟩
+    cases hc : pdsConvert c items with
+    | error e => rfl
+    | ok items' => exact (pdsConvert_intact c items items' hc).1
+  · have hk' : (c.kind == EncKind.pds) = false := by
+      cases hkk : c.kind <;> simp_all
+    simp [hk']
+
+/-- **C13, repeatable**: the model's `encode` is a function — calling it again on the same module
+    gives the same text; and dumping the module *as the first call left it* gives the same text
+    again for the non-PDS encoders (for PDS3 this needs `encode (after) = encode (before)`, which
+    is checked by correspondence: three consecutive real calls). -/
+theorem C13_repeat_nonpds (c : EncCfg) (items : Items) (h : c.kind ≠ .pds) :
+    (encode c (encode c items).after).out = (encode c items).out := by
+  rw [(C13_intact c items).2 h]
+
+end Pvl.Enc
